@@ -1,25 +1,31 @@
 import ButlerModel.Driver.C11
 import ButlerModel.Driver.C15
 import ButlerModel.Driver.C12
+import ButlerModel.Driver.C04
 /-! Line-protocol driver: one request per line on stdin, one reply per line on stdout.
-The first token selects the model. -/
+The first token selects the model; stateful models keep their state in `DState`. -/
 
-def dispatch (line : String) : String :=
+structure DState where
+  cal : Calib.State := []
+
+def step (st : DState) (line : String) : DState × String :=
   let toks := (line.splitOn " ").filter (· ≠ "")
   match toks with
-  | "ts" :: rest => Driver.C11.handle rest
-  | "pred" :: rest => Driver.C15.handle rest
-  | "dim" :: rest => Driver.C12.handle rest
-  | _ => "bad-op"
+  | "ts" :: rest => (st, Driver.C11.handle rest)
+  | "pred" :: rest => (st, Driver.C15.handle rest)
+  | "dim" :: rest => (st, Driver.C12.handle rest)
+  | "cal" :: rest => let (c, out) := Driver.C04.handle st.cal rest; ({ st with cal := c }, out)
+  | _ => (st, "bad-op")
 
-partial def loop (h : IO.FS.Stream) (out : IO.FS.Stream) : IO Unit := do
+partial def loop (h : IO.FS.Stream) (out : IO.FS.Stream) (st : DState) : IO Unit := do
   let line ← h.getLine
   if line.isEmpty then return ()
   let l := if line.endsWith "\n" then (line.dropEnd 1).toString else line
-  out.putStrLn (dispatch l)
-  loop h out
+  let (st', reply) := step st l
+  out.putStrLn reply
+  loop h out st'
 
 def main : IO Unit := do
   let out ← IO.getStdout
-  loop (← IO.getStdin) out
+  loop (← IO.getStdin) out {}
   out.flush
